@@ -133,6 +133,9 @@ func (fr *frame) get(key ssa.Value) value {
 	case *ssa.Function, *ssa.Builtin:
 		return key
 	case *ssa.Const:
+		if rebaseOn && fr.fn.Pkg != nil && fr.fn.Pkg.Pkg.Path() == rebasePkg {
+			return rebaseConst(key)
+		}
 		return constValue(key)
 	case *ssa.Global:
 		if r, ok := fr.i.globals[key]; ok {
